@@ -25,7 +25,7 @@ RULE = ("values: boundary values of both families, every zero/non-zero pattern o
         "distance 1..2 (quick) / 1..3 (thorough) over the family alphabet plus ' + - _ x X \\n \\0 / % g', random "
         "strings; each string through the Std oracles (vs socket and ipaddress), the fbsocket functions, "
         "IPAddress(str, version, flags), str_to_int and valid_ipv4/valid_ipv6; plus the CPython prelude validation")
-EXACT = ("ip_roundtrip",) + tuple(pystr_cases.EXACT)
+EXACT = ("ip_roundtrip", "fb_pton4", "fb_pton6", "fb_ntop6", "fb_ntoa") + tuple(pystr_cases.EXACT)
 TRUSTED = [
     "MODELLED, NOT VERIFIED: glibc 2.36 inet_aton / inet_pton / inet_ntop as reached through CPython's socket module "
     "(oracles Std4.aton, Std4.pton4, Std4.ntoa, Std6.pton6, Std6.ntop6 of coq/Model/IpText.v); validated on this run "
@@ -339,6 +339,11 @@ def orc_format(args, res):
         return "printed form %r is not standard text" % res
     if a.version != ver or int(a) != v:
         return "the independent parser reads %r as %r" % (res, a)
+    if ver == 6 and d in (None, "compact"):
+        # "unchanged when the fallback replaces the platform functions": the text is what the platform prints
+        exp = socket.inet_ntop(socket.AF_INET6, v.to_bytes(16, "big"))
+        if res != exp:
+            return "printed %r, the platform inet_ntop prints %r" % (res, exp)
 
 
 def orc_fb_pton(ver):
@@ -388,6 +393,9 @@ def orc_ntop6(args, res):
             return "printed form %r does not denote the value" % res
     except ValueError:
         return "printed form %r is not RFC 4291 text" % res
+    exp = socket.inet_ntop(socket.AF_INET6, v.to_bytes(16, "big"))
+    if res != exp:
+        return "printed %r, the platform inet_ntop prints %r" % (res, exp)
 
 
 def orc_aton(args, res):
@@ -589,15 +597,15 @@ def cases(rng, tier):
             # every single deletion
             for i in range(len(s)):
                 yield from string_cases(rng, s[:i] + s[i + 1:], fam, False)
-            n1 = 25 if quick else 400
+            n1 = 25 if quick else 1000
             for _ in range(n1):
                 t = edit(rng, s, alpha)
                 yield from string_cases(rng, t, fam, False)
-            for _ in range(15 if quick else 600):
+            for _ in range(15 if quick else 1500):
                 t = edit(rng, edit(rng, s, alpha), alpha)
                 yield from string_cases(rng, t, fam, False)
             if not quick:
-                for _ in range(300):
+                for _ in range(800):
                     t = edit(rng, edit(rng, edit(rng, s, alpha), alpha), alpha)
                     yield from string_cases(rng, t, fam, False)
     # random strings over the alphabets
